@@ -74,8 +74,9 @@ def register_in_group(
         pgroup._LOADED_PLUGINS[pg_ref] = plugin
         if pg_ref.name not in pgroup._VERSIONS:
             pgroup._VERSIONS[pg_ref.name] = []
-        pgroup._VERSIONS[pg_ref.name].append(pg_ref)
-        pgroup._VERSIONS[pg_ref.name].sort()
+        if pg_ref not in pgroup._VERSIONS[pg_ref.name]:  # e.g. notebook cell re-run
+            pgroup._VERSIONS[pg_ref.name].append(pg_ref)
+            pgroup._VERSIONS[pg_ref.name].sort()
 
         pgroup._load_plugin(ep_name, plugin)
         if not violently:
